@@ -476,6 +476,8 @@ def main(tier):
             res = r.get('res')
             if res in (None, '__none__'):
                 continue
+            if not r.get('ok', True):
+                continue        # already reported by the oracle on the real code (violation / known finding)
             if not offdiag_ok(c, res):
                 badc.add(i)
             if not c.get('tie'):
